@@ -13,6 +13,8 @@ C07 mask fwd|bwd [E] [t] [w]        -> ok [E'] pin pout  Apodizer / any phase-on
                                                          before / after **with the input weights** (complex lists are flat re,im,…)
 C07 maskpol tensor [t] [J] [S] | vector [t] [E]  -> ok [I',Q',U',V',I,Q,U,V]  Stokes vector of one pixel after / before a scalar
                                                          transmission t (Jones-matrix pixel with input Stokes vector S / Jones-vector pixel)
+C07 powerpol tensor [t] [J…] [S] [w] | vector [t] [E…] [w] -> ok P P'   `Wavefront.total_power` (Σ I_i w_i) of a polarised wavefront
+                                                         before / after the per-pixel scalar transmission t (flat lists: 8 / 4 reals per pixel)
 C07 fibre [E] [m] [w]               -> ok [a] pin mnorm [back]   a = Σ conj(E) w m, Σ|E|²w, Σ|m|²w, power of a·m
 C07 knife N M start [mask] [apod] [lyot] [x] -> ok [row']  lyot·crop(ifft(fft(pad(x·apod))·mask)), M ∣ 4 (Gaussian kernels)
 C07 knifet N M start [ker] [mask] [apod] [lyot] [x] -> ok [row']  the same `knifeRow` for any M > 0, the forward kernel
@@ -32,6 +34,14 @@ def ratFn (l : List Rat) : Nat → Rat := fun i => l.getD i 0
 def flat (f : Nat → Cx Rat) (n : Nat) : List Rat := (List.range n).flatMap fun i => [(f i).re, (f i).im]
 /-- a kernel `ℤ → ℂ` of period `M` read from a table of `M` values -/
 def tableKer (l : List (Cx Rat)) (M : Nat) (n : Int) : Cx Rat := l.getD ((n % (M : Int)).toNat) ⟨0, 0⟩
+def j2List? : List Rat → Option (List (J2 Rat))
+  | [] => some []
+  | a :: b :: c :: d :: e :: f :: g :: h :: rest => (j2List? rest).map fun l => ⟨⟨a, b⟩, ⟨c, d⟩, ⟨e, f⟩, ⟨g, h⟩⟩ :: l
+  | _ => none
+def v2List? : List Rat → Option (List (V2 Rat))
+  | [] => some []
+  | a :: b :: c :: d :: rest => (v2List? rest).map fun l => ⟨⟨a, b⟩, ⟨c, d⟩⟩ :: l
+  | _ => none
 def parseCx? (s : String) : Option (List (Cx Rat)) := (parseRatList? s).bind cxList?
 
 structure St where
@@ -79,6 +89,22 @@ def step (st : St) : List String → St × String
       let i := vecStokes e
       (st, "ok " ++ showRatList [o.i, o.q, o.u, o.v, i.i, i.q, i.u, i.v])
     | _, _ => (st, "bad-op")
+  | ["powerpol", "tensor", t, j, sv, w] =>
+    match parseCx? t, (parseRatList? j).bind j2List?, parseRatList? sv, parseRatList? w with
+    | some t, some j, some [s0, s1, s2, s3], some w =>
+      if t.length ≠ j.length ∨ w.length ≠ j.length then (st, "bad-op") else
+      let z : J2 Rat := ⟨⟨0, 0⟩, ⟨0, 0⟩, ⟨0, 0⟩, ⟨0, 0⟩⟩
+      let e : Nat → J2 Rat := fun i => j.getD i z
+      (st, s!"ok {showRat (powerJ e ⟨s0, s1, s2, s3⟩ (ratFn w) j.length)} {showRat (powerJ (fun i => maskJ (cxFn t i) (e i)) ⟨s0, s1, s2, s3⟩ (ratFn w) j.length)}")
+    | _, _, _, _ => (st, "bad-op")
+  | ["powerpol", "vector", t, ev, w] =>
+    match parseCx? t, (parseRatList? ev).bind v2List?, parseRatList? w with
+    | some t, some ev, some w =>
+      if t.length ≠ ev.length ∨ w.length ≠ ev.length then (st, "bad-op") else
+      let z : V2 Rat := ⟨⟨0, 0⟩, ⟨0, 0⟩⟩
+      let e : Nat → V2 Rat := fun i => ev.getD i z
+      (st, s!"ok {showRat (powerV e (ratFn w) ev.length)} {showRat (powerV (fun i => maskV (cxFn t i) (e i)) (ratFn w) ev.length)}")
+    | _, _, _ => (st, "bad-op")
   | ["fibre", e, m, w] =>
     match parseCx? e, parseCx? m, parseRatList? w with
     | some e, some m, some w =>
